@@ -111,9 +111,11 @@ type world struct {
 	funding []*wire.MsgTx
 	sent    []*wire.MsgTx
 	// imported accounts (acctw.go)
-	relabel   string // prefix put in front of every signature (wallet-level C10: after a fired fault)
-	imported  []importedAcct
-	impIssued []impIssued
+	leases12   map[wire.OutPoint]lease12 // wallet-level C12
+	builtWhole *wire.MsgTx
+	relabel    string // prefix put in front of every signature (wallet-level C10: after a fired fault)
+	imported   []importedAcct
+	impIssued  []impIssued
 }
 
 // ownSigs: signature prefixes a wallet-level facet of a property may report.
@@ -124,6 +126,7 @@ var ownSigs = map[string][]string{
 	"C08": {"c08w:"},
 	"C10": {"c10w:"},
 	"C13": {"c13w:"},
+	"C12": {"c12w:"},
 }
 
 func (x *world) fail(sig, format string, a ...any) {
@@ -155,7 +158,7 @@ func (x *world) fail(sig, format string, a ...any) {
 // newWorld creates node, database and wallet and attaches the wallet.
 func newWorld(env *core.Env, p *core.Plan) (*world, error) {
 	x := &world{env: env, p: p, prop: p.Prop, byAddr: map[string]int{}, acctKeys: map[string]*hdkeychain.ExtendedKey{},
-		byScript: map[string]int{}, lockedOps: map[wire.OutPoint]bool{}, leases: map[wire.OutPoint]time.Time{},
+		byScript: map[string]int{}, lockedOps: map[wire.OutPoint]bool{}, leases: map[wire.OutPoint]time.Time{}, leases12: map[wire.OutPoint]lease12{},
 		paidHighestMined: map[string]int64{}, firstPayHeight: -1, scanMin: -1}
 	r := core.NewRand(core.Mix(p.Seed, 0x77a11e7))
 	txauthor.VerifSeedCPRNG(int64(core.Mix(p.Seed, 0xc9) >> 1)) // overlay probe: change position is a function of the plan
